@@ -22,7 +22,7 @@ struct UserScope {
 };
 
 template <Flv F, typename TC>
-void hub(TC& c, Method m, uint8_t sid, uint8_t inj, const void* self, const void* ev = nullptr);
+void hub(TC& c, Method m, uint8_t sid, uint8_t inj, uint64_t* mem, const void* ev = nullptr);
 
 }
 
@@ -35,27 +35,28 @@ struct Ev1 { uint32_t value; };
 struct Ev2 { uint64_t a, b; };   // a second event type: react<TEvent>/query<TEvent> are templates
 
 #define VERIF_CALLBACKS(SID, INJ)                                                                                                   \
-	void entryGuard(GuardControl& c) { mon::hub<mon::FLV_GUARD>(c, ffsm2::Method::ENTRY_GUARD, SID, INJ, this); }                     \
-	void enter(PlanControl& c) { mon::hub<mon::FLV_PLAN>(c, ffsm2::Method::ENTER, SID, INJ, this); }                                  \
-	void reenter(PlanControl& c) { mon::hub<mon::FLV_PLAN>(c, ffsm2::Method::REENTER, SID, INJ, this); }                              \
-	void preUpdate(FullControl& c) { mon::hub<mon::FLV_FULL>(c, ffsm2::Method::PRE_UPDATE, SID, INJ, this); }                         \
-	void update(FullControl& c) { mon::hub<mon::FLV_FULL>(c, ffsm2::Method::UPDATE, SID, INJ, this); }                                \
-	void postUpdate(FullControl& c) { mon::hub<mon::FLV_FULL>(c, ffsm2::Method::POST_UPDATE, SID, INJ, this); }                       \
-	void preReact(const Ev1& e, FullControl& c) { mon::hub<mon::FLV_FULL>(c, ffsm2::Method::PRE_REACT, SID, INJ, this, &e); }         \
-	void react(const Ev1& e, FullControl& c) { mon::hub<mon::FLV_FULL>(c, ffsm2::Method::REACT, SID, INJ, this, &e); }                \
-	void postReact(const Ev1& e, FullControl& c) { mon::hub<mon::FLV_FULL>(c, ffsm2::Method::POST_REACT, SID, INJ, this, &e); }       \
-	void query(Ev1& e, ConstControl& c) const { mon::hub<mon::FLV_CONST>(c, ffsm2::Method::QUERY, SID, INJ, this, &e); }              \
-	void preReact(const Ev2& e, FullControl& c) { mon::hub<mon::FLV_FULL>(c, ffsm2::Method::PRE_REACT, SID, INJ, this, &e); }         \
-	void react(const Ev2& e, FullControl& c) { mon::hub<mon::FLV_FULL>(c, ffsm2::Method::REACT, SID, INJ, this, &e); }                \
-	void postReact(const Ev2& e, FullControl& c) { mon::hub<mon::FLV_FULL>(c, ffsm2::Method::POST_REACT, SID, INJ, this, &e); }       \
-	void query(Ev2& e, ConstControl& c) const { mon::hub<mon::FLV_CONST>(c, ffsm2::Method::QUERY, SID, INJ, this, &e); }              \
-	void exitGuard(GuardControl& c) { mon::hub<mon::FLV_GUARD>(c, ffsm2::Method::EXIT_GUARD, SID, INJ, this); }                       \
-	void exit(PlanControl& c) { mon::hub<mon::FLV_PLAN>(c, ffsm2::Method::EXIT, SID, INJ, this); }
+	void entryGuard(GuardControl& c) { mon::hub<mon::FLV_GUARD>(c, ffsm2::Method::ENTRY_GUARD, SID, INJ, &this->mem); }                     \
+	void enter(PlanControl& c) { mon::hub<mon::FLV_PLAN>(c, ffsm2::Method::ENTER, SID, INJ, &this->mem); }                                  \
+	void reenter(PlanControl& c) { mon::hub<mon::FLV_PLAN>(c, ffsm2::Method::REENTER, SID, INJ, &this->mem); }                              \
+	void preUpdate(FullControl& c) { mon::hub<mon::FLV_FULL>(c, ffsm2::Method::PRE_UPDATE, SID, INJ, &this->mem); }                         \
+	void update(FullControl& c) { mon::hub<mon::FLV_FULL>(c, ffsm2::Method::UPDATE, SID, INJ, &this->mem); }                                \
+	void postUpdate(FullControl& c) { mon::hub<mon::FLV_FULL>(c, ffsm2::Method::POST_UPDATE, SID, INJ, &this->mem); }                       \
+	void preReact(const Ev1& e, FullControl& c) { mon::hub<mon::FLV_FULL>(c, ffsm2::Method::PRE_REACT, SID, INJ, &this->mem, &e); }         \
+	void react(const Ev1& e, FullControl& c) { mon::hub<mon::FLV_FULL>(c, ffsm2::Method::REACT, SID, INJ, &this->mem, &e); }                \
+	void postReact(const Ev1& e, FullControl& c) { mon::hub<mon::FLV_FULL>(c, ffsm2::Method::POST_REACT, SID, INJ, &this->mem, &e); }       \
+	void query(Ev1& e, ConstControl& c) const { mon::hub<mon::FLV_CONST>(c, ffsm2::Method::QUERY, SID, INJ, &this->mem, &e); }              \
+	void preReact(const Ev2& e, FullControl& c) { mon::hub<mon::FLV_FULL>(c, ffsm2::Method::PRE_REACT, SID, INJ, &this->mem, &e); }         \
+	void react(const Ev2& e, FullControl& c) { mon::hub<mon::FLV_FULL>(c, ffsm2::Method::REACT, SID, INJ, &this->mem, &e); }                \
+	void postReact(const Ev2& e, FullControl& c) { mon::hub<mon::FLV_FULL>(c, ffsm2::Method::POST_REACT, SID, INJ, &this->mem, &e); }       \
+	void query(Ev2& e, ConstControl& c) const { mon::hub<mon::FLV_CONST>(c, ffsm2::Method::QUERY, SID, INJ, &this->mem, &e); }              \
+	void exitGuard(GuardControl& c) { mon::hub<mon::FLV_GUARD>(c, ffsm2::Method::EXIT_GUARD, SID, INJ, &this->mem); }                       \
+	void exit(PlanControl& c) { mon::hub<mon::FLV_PLAN>(c, ffsm2::Method::EXIT, SID, INJ, &this->mem); }
 
 // injections: plain states that record themselves with their index
 template <unsigned SID, unsigned J>
 struct Inj : FSM::State {
 	VERIF_CALLBACKS(SID, J)
+	mutable uint64_t mem = 0x1000u + SID * 16 + J;
 };
 
 template <unsigned SID, typename> struct BaseOf;
@@ -63,6 +64,8 @@ template <unsigned SID>
 struct BaseOf<SID, std::index_sequence<>> { using Type = FSM::State; };
 template <unsigned SID, size_t... J>
 struct BaseOf<SID, std::index_sequence<J...>> { using Type = FSM::StateT<Inj<SID, J + 1>...>; };
+
+#if CFG_PARTIAL == 0
 
 template <unsigned I>
 struct St : BaseOf<I, std::make_index_sequence<K>>::Type {
@@ -72,7 +75,7 @@ struct St : BaseOf<I, std::make_index_sequence<K>>::Type {
 	using typename Base::FullControl;
 	using typename Base::ConstControl;
 	VERIF_CALLBACKS(I, 0)
-	uint32_t marker = 0x51A7E000u + I;
+	mutable uint64_t mem = 0x51A7E000u + I;
 };
 
 template <unsigned I>
@@ -81,11 +84,89 @@ struct Br : FSM::State {};
 struct Rt : BaseOf<ROOT, std::make_index_sequence<K>>::Type {
 	using Base = BaseOf<ROOT, std::make_index_sequence<K>>::Type;
 	VERIF_CALLBACKS(ROOT, 0)
+#if HAS_PLANS && (CFG_HEADOUT & 1)
+	void planSucceeded(FullControl& c) { mon::hub<mon::FLV_FULL>(c, ffsm2::Method::PLAN_SUCCEEDED, ROOT, 0, &this->mem); }
+#endif
+#if HAS_PLANS && (CFG_HEADOUT & 2)
+	void planFailed(FullControl& c) { mon::hub<mon::FLV_FULL>(c, ffsm2::Method::PLAN_FAILED, ROOT, 0, &this->mem); }
+#endif
+	mutable uint64_t mem = 0x51A7E0FFu;
+};
+
+#else
+
+// state classes that define only some of the callbacks: one mix-in per callback, chained on top of the library's
+// state base according to cfg::ownMask(sid)
+template <typename B, unsigned SID>
+struct MData : B { mutable uint64_t mem = 0x51A7E000u + SID; };
+
+#define VERIF_MIXIN(NAME, ...)                                                                                                       \
+	template <typename B, unsigned SID>                                                                                              \
+	struct NAME : B {                                                                                                                \
+		using typename B::GuardControl; using typename B::PlanControl; using typename B::FullControl; using typename B::ConstControl; \
+		__VA_ARGS__                                                                                                                  \
+	};
+
+VERIF_MIXIN(MEntryGuard, void entryGuard(GuardControl& c) { mon::hub<mon::FLV_GUARD>(c, ffsm2::Method::ENTRY_GUARD, SID, 0, &this->mem); })
+VERIF_MIXIN(MEnter, void enter(PlanControl& c) { mon::hub<mon::FLV_PLAN>(c, ffsm2::Method::ENTER, SID, 0, &this->mem); })
+VERIF_MIXIN(MReenter, void reenter(PlanControl& c) { mon::hub<mon::FLV_PLAN>(c, ffsm2::Method::REENTER, SID, 0, &this->mem); })
+VERIF_MIXIN(MPreUpdate, void preUpdate(FullControl& c) { mon::hub<mon::FLV_FULL>(c, ffsm2::Method::PRE_UPDATE, SID, 0, &this->mem); })
+VERIF_MIXIN(MUpdate, void update(FullControl& c) { mon::hub<mon::FLV_FULL>(c, ffsm2::Method::UPDATE, SID, 0, &this->mem); })
+VERIF_MIXIN(MPostUpdate, void postUpdate(FullControl& c) { mon::hub<mon::FLV_FULL>(c, ffsm2::Method::POST_UPDATE, SID, 0, &this->mem); })
+VERIF_MIXIN(MPreReact,
+	void preReact(const Ev1& e, FullControl& c) { mon::hub<mon::FLV_FULL>(c, ffsm2::Method::PRE_REACT, SID, 0, &this->mem, &e); }
+	void preReact(const Ev2& e, FullControl& c) { mon::hub<mon::FLV_FULL>(c, ffsm2::Method::PRE_REACT, SID, 0, &this->mem, &e); })
+VERIF_MIXIN(MReact,
+	void react(const Ev1& e, FullControl& c) { mon::hub<mon::FLV_FULL>(c, ffsm2::Method::REACT, SID, 0, &this->mem, &e); }
+	void react(const Ev2& e, FullControl& c) { mon::hub<mon::FLV_FULL>(c, ffsm2::Method::REACT, SID, 0, &this->mem, &e); })
+VERIF_MIXIN(MPostReact,
+	void postReact(const Ev1& e, FullControl& c) { mon::hub<mon::FLV_FULL>(c, ffsm2::Method::POST_REACT, SID, 0, &this->mem, &e); }
+	void postReact(const Ev2& e, FullControl& c) { mon::hub<mon::FLV_FULL>(c, ffsm2::Method::POST_REACT, SID, 0, &this->mem, &e); })
+VERIF_MIXIN(MQuery,
+	void query(Ev1& e, ConstControl& c) const { mon::hub<mon::FLV_CONST>(c, ffsm2::Method::QUERY, SID, 0, &this->mem, &e); }
+	void query(Ev2& e, ConstControl& c) const { mon::hub<mon::FLV_CONST>(c, ffsm2::Method::QUERY, SID, 0, &this->mem, &e); })
+VERIF_MIXIN(MExitGuard, void exitGuard(GuardControl& c) { mon::hub<mon::FLV_GUARD>(c, ffsm2::Method::EXIT_GUARD, SID, 0, &this->mem); })
+VERIF_MIXIN(MExit, void exit(PlanControl& c) { mon::hub<mon::FLV_PLAN>(c, ffsm2::Method::EXIT, SID, 0, &this->mem); })
 #if HAS_PLANS
-	void planSucceeded(FullControl& c) { mon::hub<mon::FLV_FULL>(c, ffsm2::Method::PLAN_SUCCEEDED, ROOT, 0, this); }
-	void planFailed(FullControl& c) { mon::hub<mon::FLV_FULL>(c, ffsm2::Method::PLAN_FAILED, ROOT, 0, this); }
+VERIF_MIXIN(MPlanSucceeded, void planSucceeded(FullControl& c) { mon::hub<mon::FLV_FULL>(c, ffsm2::Method::PLAN_SUCCEEDED, SID, 0, &this->mem); })
+VERIF_MIXIN(MPlanFailed, void planFailed(FullControl& c) { mon::hub<mon::FLV_FULL>(c, ffsm2::Method::PLAN_FAILED, SID, 0, &this->mem); })
+#endif
+
+template <unsigned SID, ffsm2::Method M, template <typename, unsigned> class TMix, typename B>
+using Pick = typename ffsm2::Conditional<defines(SID, M), TMix<B, SID>, B>;
+
+template <unsigned SID>
+struct Mixed {
+	using B0 = MData<typename BaseOf<SID, std::make_index_sequence<K>>::Type, SID>;
+	using B1 = Pick<SID, ffsm2::Method::ENTRY_GUARD, MEntryGuard, B0>;
+	using B2 = Pick<SID, ffsm2::Method::ENTER, MEnter, B1>;
+	using B3 = Pick<SID, ffsm2::Method::REENTER, MReenter, B2>;
+	using B4 = Pick<SID, ffsm2::Method::PRE_UPDATE, MPreUpdate, B3>;
+	using B5 = Pick<SID, ffsm2::Method::UPDATE, MUpdate, B4>;
+	using B6 = Pick<SID, ffsm2::Method::POST_UPDATE, MPostUpdate, B5>;
+	using B7 = Pick<SID, ffsm2::Method::PRE_REACT, MPreReact, B6>;
+	using B8 = Pick<SID, ffsm2::Method::REACT, MReact, B7>;
+	using B9 = Pick<SID, ffsm2::Method::POST_REACT, MPostReact, B8>;
+	using B10 = Pick<SID, ffsm2::Method::QUERY, MQuery, B9>;
+	using B11 = Pick<SID, ffsm2::Method::EXIT_GUARD, MExitGuard, B10>;
+	using B12 = Pick<SID, ffsm2::Method::EXIT, MExit, B11>;
+#if HAS_PLANS
+	using B13 = Pick<SID, ffsm2::Method::PLAN_SUCCEEDED, MPlanSucceeded, B12>;
+	using Type = Pick<SID, ffsm2::Method::PLAN_FAILED, MPlanFailed, B13>;
+#else
+	using Type = B12;
 #endif
 };
+
+template <unsigned I>
+struct St : Mixed<I>::Type {};
+
+template <unsigned I>
+struct Br : FSM::State {};
+
+struct Rt : Mixed<ROOT>::Type {};
+
+#endif
 
 #if HAS_LOG
 struct Lg : FSM::Logger {
@@ -551,10 +632,11 @@ inline void userCode(TC& c, Inst& in, Method m, uint8_t sid) {
 // the hub every callback goes through
 
 template <Flv F, typename TC>
-inline void hub(TC& c, Method m, uint8_t sid, uint8_t inj, const void* self, const void* ev) {
+inline void hub(TC& c, Method m, uint8_t sid, uint8_t inj, uint64_t* mem, const void* ev) {
 	World& w = *W;
 	UserScope us(w);
-	(void) self;
+	// data kept in the state object itself: a running digest of the callbacks it received (C17: copies carry it along)
+	if (mem && !w.probe) *mem = vh::mix(*mem, (static_cast<uint64_t>(m) << 8) | inj);
 	if (w.probe) {
 		// silent query used by the observer to read the outstanding request
 		if (m != Method::QUERY) w.V("C05", "non-query-callback-during-query", fmt("%s of %u delivered by query()", mname(m), sid));
